@@ -44,7 +44,8 @@ class Diagonalization(Function):
         mins = torch.diagonal(t_mat, dim1=-1, dim2=-2).min(dim=-1, keepdim=True)[0].unsqueeze(-1)
         jitter_val = settings.tridiagonal_jitter.value()
         jitter_mat = (jitter_val * mins) * torch.eye(t_mat.size(-1), device=t_mat.device, dtype=t_mat.dtype)
-        eigenvalues, eigenvectors = lanczos.lanczos_tridiag_to_diag(t_mat + jitter_mat)
+        eigenvalues, eigenvectors = torch.linalg.eigh(t_mat + jitter_mat)
+        eigenvalues = eigenvalues.clamp_min(0.0)
 
         # Get orthogonal matrix and eigenvalues
         q_mat = q_mat.matmul(eigenvectors)
